@@ -8,8 +8,14 @@
      trl <mt: 4 complex> <mr: 4 complex> <ml: 4 complex> <lguess> <rguess> <disc> <sqrt disc> <n/d> <sqrt n/d>
           -> "trl <l> <r>"   the model's trl_solve with csqrt answered by the nearer of the two given
              (argument, root) pairs
-     dispatch <type> <rows> <cols> <unknowns> <correlated> <m_error> <nstd> {Z|O|K<id>|U<id>|C<id>}*4*nstd
-          -> "dispatch trl|simple|auto"
+     dispatch <type> <rows> <cols> <unknowns> <correlated> <m_error> <nstd> {A|Z|O|K<id>|U<id>|C<id>}*4*nstd
+          -> "dispatch trl|simple|auto|fault"      (A = absent / NULL cell)
+     trlrows <T|U> <order, e.g. TRL> <mt> <mr> <ml> <l> <r>   -> "trlrows <n> { 7 coefficients, rhs }*n" (complex = re im)
+     updates <s_rows> <s_cols> <nunk> <nf> <findex> <p values nunk*nf> <nstd> { <cell N|K|U<i>>*cells <value>*cells }*nstd
+          -> "updates ok <values of all standards>" | "updates null" | "updates oob"
+     vinit <v_cells> <m_error> <unknowns per system> <nsys> <eq count>*nsys  -> "vinit -" | "vinit {P|N}*nsys"
+     vsave / vrestore <systems> <v_cells> <nstd> { - | v {N | P <value>*v_cells}*systems }*nstd <buflen> <buf>*buflen
+          -> "vsave ok <buf>" / "vrestore ok <values of the present matrices in order>" | "... null" | "... oob"
      dof <unknowns> <nsys> <eq count>*nsys <ncells> <leak count>*ncells  -> "dof <df>"
    Reals are exact rationals "p/q", complex numbers two reals. *)
 #include "glue.ml.inc"
@@ -68,11 +74,76 @@ let () =
            let nstd = int_of_string (next ()) in
            let cell () = let t = next () in
              let id () = nat_of_int (int_of_string (String.sub t 1 (String.length t - 1))) in
-             (match t.[0] with 'Z' -> Zero | 'O' -> One | 'K' -> Known (id ()) | 'U' -> Unknown (id ()) | _ -> Corr (id ())) in
+             (match t.[0] with 'A' -> Absent | 'Z' -> Zero | 'O' -> One | 'K' -> Known (id ()) | 'U' -> Unknown (id ()) | _ -> Corr (id ())) in
            let stds = times nstd (fun () ->
                let a = cell () in let b = cell () in let c = cell () in let d = cell () in (((a, b), c), d)) in
            let p = dispatch ty (nat_of_int rows) (nat_of_int cols) stds (nat_of_int unk) (nat_of_int corr) me in
-           Printf.printf "dispatch %s\n" (match p with PathTrl -> "trl" | PathSimple -> "simple" | PathAuto -> "auto")
+           Printf.printf "dispatch %s\n" (match p with Val PathTrl -> "trl" | Val PathSimple -> "simple" | Val PathAuto -> "auto" | Fault -> "fault")
+         | "trlrows" ->
+           let kind = next () in
+           let order = List.map (fun c -> match c with 'T' -> KT | 'R' -> KR | _ -> KL)
+               (List.init (String.length (List.hd !toks)) (String.get (List.hd !toks))) in
+           let _ = next () in
+           let cx () = let a = qc_of_string (next ()) in let b = qc_of_string (next ()) in { qre = a; qim = b } in
+           let m2 () = let a = cx () in let b = cx () in let c = cx () in let d = cx () in
+             { m11 = o a; m12 = o b; m21 = o c; m22 = o d } in
+           let mt = m2 () in let mr = m2 () in let ml = m2 () in
+           let l = cx () in let r = cx () in
+           let rows = if kind = "T" then q_trl_rows_t order mt mr ml (o l) (o r)
+             else q_trl_rows_u order mt mr ml (o l) (o r) in
+           Printf.printf "trlrows %d%s\n" (List.length rows)
+             (String.concat "" (List.map (fun (cs, b) ->
+                  String.concat "" (List.map (fun c -> " " ^ string_of_qi (u c)) cs) ^ " " ^ string_of_qi (u b)) rows))
+         | "updates" ->
+           let ni () = int_of_string (next ()) in
+           let sr = ni () in let sc = ni () in let nunk = ni () in let nf = ni () in let findex = ni () in
+           let pv = times nunk (fun () -> times nf (fun () -> nat_of_int (ni ()))) in
+           let nstd = ni () in
+           let stds = times nstd (fun () ->
+               let cells = times (sr * sc) (fun () -> let t = next () in
+                                             match t.[0] with
+                                             | 'N' -> None
+                                             | 'K' -> Some { sp_unknown = false; sp_uindex = O }
+                                             | _ -> Some { sp_unknown = true;
+                                                           sp_uindex = nat_of_int (int_of_string (String.sub t 1 (String.length t - 1))) }) in
+               let vals = times (sr * sc) (fun () -> nat_of_int (ni ())) in
+               { ss_cells = cells; ss_vals = vals }) in
+           (match n_update_s (nat_of_int sr) (nat_of_int sc) pv (nat_of_int findex) stds with
+            | MOk r -> Printf.printf "updates ok%s\n"
+                         (String.concat "" (List.map (fun s -> String.concat "" (List.map (fun v -> " " ^ string_of_int (int_of_nat v)) s.ss_vals)) r))
+            | MNull -> Printf.printf "updates null\n"
+            | MOob -> Printf.printf "updates oob\n")
+         | "vinit" ->
+           let ni () = int_of_string (next ()) in
+           let vc = ni () in let me = b_of (next ()) in let ups = ni () in let nsys = ni () in
+           let eqs = times nsys (fun () -> nat_of_int (ni ())) in
+           (match n_init_vvec (nat_of_int vc) O me (nat_of_int ups) eqs with
+            | None -> Printf.printf "vinit -\n"
+            | Some vs -> Printf.printf "vinit%s\n" (String.concat "" (List.map (fun e -> match e with None -> " N" | Some _ -> " P") vs)))
+         | "vsave" | "vrestore" ->
+           let ni () = int_of_string (next ()) in
+           let systems = ni () in let vc = ni () in let nstd = ni () in
+           let stds = times nstd (fun () ->
+               match next () with
+               | "-" -> None
+               | _ -> Some (times systems (fun () ->
+                   match next () with
+                   | "N" -> None
+                   | _ -> Some (times vc (fun () -> nat_of_int (ni ())))))) in
+           let bl = ni () in
+           let buf = times bl (fun () -> nat_of_int (ni ())) in
+           let pr l = String.concat "" (List.map (fun v -> " " ^ string_of_int (int_of_nat v)) l) in
+           if op = "vsave" then
+             (match n_save_v (nat_of_int systems) (nat_of_int vc) stds buf with
+              | MOk b -> Printf.printf "vsave ok%s\n" (pr b)
+              | MNull -> Printf.printf "vsave null\n" | MOob -> Printf.printf "vsave oob\n")
+           else
+             (match n_restore_v (nat_of_int systems) (nat_of_int vc) stds buf with
+              | MOk r -> Printf.printf "vrestore ok%s\n"
+                           (String.concat "" (List.map (fun vv -> match vv with
+                                | None -> ""
+                                | Some vs -> String.concat "" (List.map (fun e -> match e with None -> "" | Some m -> pr m) vs)) r))
+              | MNull -> Printf.printf "vrestore null\n" | MOob -> Printf.printf "vrestore oob\n")
          | "dof" ->
            (* dof <unknowns> <nsys> <eq count>*nsys <ncells> <leak count>*ncells *)
            let zi () = coqz_of_z (ZZ.of_string (next ())) in
